@@ -85,6 +85,7 @@ class Target:
         self.contract_key = kw.pop("contract_key", None)
         self.equivalent_mutants = dict(kw.pop("equivalent_mutants", {}))
         self.skip_mutants = kw.pop("skip_mutants", False)
+        self.quick_mutants = kw.pop("quick_mutants", 10)     # mutants per quick run (heavy targets lower it)
         self.partial = kw.pop("partial", False)
         self.generator = kw.pop("generator", None)
         self.faults = kw.pop("faults", "Exception")
@@ -96,14 +97,35 @@ class Target:
 
 
 class Fold:
-    def __init__(self, name, sort, elem, kind):
+    """sum: Int-valued, all: Bool-valued, cat: sequence-valued homomorphism over concatenation."""
+
+    def __init__(self, name, sort, elem, kind, rsort=None):
         self.name, self.sort, self.elem, self.kind = name, sort, elem, kind
-        rs = z3.IntSort() if kind == "sum" else z3.BoolSort()
-        self.f = z3.Function(name, sort.z3(), rs)
+        self.rsort = rsort if kind == "cat" else (S.INT if kind == "sum" else S.BOOL)
+        self.f = z3.Function(name, sort.z3(), self.rsort.z3())
 
     def __call__(self, v):
         v = S.lift(v, self.sort)
-        return S.V(S.INT if self.kind == "sum" else S.BOOL, self.f(v.t))
+        return S.V(self.rsort, self.f(v.t))
+
+    def unit(self):
+        """value at the empty sequence (z3 term)"""
+        if self.kind == "sum":
+            return z3.IntVal(0)
+        if self.kind == "all":
+            return z3.BoolVal(True)
+        return z3.Empty(self.rsort.z3())
+
+    def combine(self, vals):
+        if not vals:
+            return self.unit()
+        if len(vals) == 1:
+            return vals[0]
+        if self.kind == "sum":
+            return z3.Sum(*vals)
+        if self.kind == "all":
+            return z3.And(*vals)
+        return z3.Concat(*vals)
 
 
 class SeqLemma:
@@ -135,6 +157,7 @@ class Spec:
         self.known = []
         self.extra_checks = []
         self.funcs = {}
+        self.rev = {}
 
     # ---- registration API (exposed to spec files)
     def api(self):
@@ -175,6 +198,31 @@ class Spec:
             f = Fold(sp.prop + "_" + name, sort, pred, "all")
             sp.folds.append(f)
             return f
+
+        def fold_cat(name, sort, rsort, elem):
+            f = Fold(sp.prop + "_" + name, sort, elem, "cat", rsort)
+            sp.folds.append(f)
+            return f
+
+        def use_rev(sort):
+            """Reversal as a spec function with its operation lemmas (Rev(a++b) = Rev(b)++Rev(a), Rev(Rev(x)) = x)."""
+            f = z3.Function("Rev_" + S._mangle(sort.name), sort.z3(), sort.z3())
+            sp.rev[sort.name] = f
+            return lambda v: S.V(sort, f(S.lift(v, sort).t))
+
+        def fold_unit(fold, x):
+            """Definitional instance F([x]) == f(x) (always true): a proof hint usable in lemmas."""
+            x = S.lift(x, fold.sort.elem)
+            return S.V(S.BOOL, fold.f(z3.Unit(x.t)) == S.lift(fold.elem(x)).t)
+
+        def rev_hints(a, b=None):
+            """Axiom instances of list reversal: Rev(Rev(a)) == a, |Rev(a)| == |a|, Rev(a ++ b) == Rev(b) ++ Rev(a)."""
+            rv = sp.rev[a.s.name]
+            facts = [rv(rv(a.t)) == a.t, z3.Length(rv(a.t)) == z3.Length(a.t), z3.Implies(z3.Length(a.t) == 0, rv(a.t) == a.t)]
+            if b is not None:
+                facts += [rv(z3.Concat(a.t, b.t)) == z3.Concat(rv(b.t), rv(a.t)), rv(rv(b.t)) == b.t,
+                          z3.Implies(z3.Length(b.t) == 0, rv(b.t) == b.t)]
+            return S.V(S.BOOL, z3.And(*facts))
 
         def seq_lemma(name, sort, stmt):
             l = SeqLemma(name, sort, stmt)
@@ -230,7 +278,7 @@ class Spec:
             return fn
 
         ns = dict(cls=cls, ghost=ghost, assumed=assumed, verified=verified, target=target, loop=loop,
-                  fold_sum=fold_sum, fold_all=fold_all, seq_lemma=seq_lemma, lemma=lemma,
+                  fold_sum=fold_sum, fold_all=fold_all, fold_cat=fold_cat, use_rev=use_rev, fold_unit=fold_unit, rev_hints=rev_hints, seq_lemma=seq_lemma, lemma=lemma,
                   exceptions=exceptions, attr_sort=attr_sort, const=const, assume_note=assume_note,
                   undecided=undecided, pure=pure, ufunc=ufunc, forall=forall, exists=exists,
                   extra_check=extra_check, rx=re.compile, SPEC=sp)
